@@ -2155,40 +2155,71 @@ package apd
 //@   exported
 //@   ensures [wf] ret2 == nil ==> ret0 != nil && inv(ret0)
 // ---------------------------------------------------------------- formatting: no panic (C04); the text itself is C13/C14
+// Etail(s, m, e, adj): s ends at m with the exponent part: the letter e, a sign, the decimal text of |adj|
+//@ define Etail(s: []byte, m: int, e: int, adj: int): bool = s[m] == e && s[m + 1] == ite(adj < 0, 45, 43) && len(s) == m + 2 + nd10(abs(adj)) && dseg(s, m + 2, abs(adj), 0, nd10(abs(adj)))
 //@ func strconv.AppendUint
-//@   trusted strconv (panics for a base outside 2..36; appends at least one digit - in dst's spare cells when they suffice, else in a new array)
+//@   trusted strconv (panics for a base outside 2..36; appends at least one digit - in dst's spare cells when they suffice, else in a new array; in base 10 the digits are the decimal text of i: uf_dchar(i, k) is by definition its k-th character)
 //@   requires 2 <= base && base <= 36
 //@   assigns spare(dst)
 //@   allocates
 //@   ensures len(ret) >= len(dst) + 1 && extends(ret, dst)
+//@   ensures [keep] same(ret, 0, old(dst), 0, len(dst))
+//@   ensures [text] base == 10 ==> len(ret) == len(dst) + nd10(i) && dseg(ret, len(dst), i, 0, nd10(i))
 //@ func strconv.AppendInt
-//@   trusted strconv (panics for a base outside 2..36; appends at least one digit - in dst's spare cells when they suffice, else in a new array)
+//@   trusted strconv (panics for a base outside 2..36; appends at least one digit - in dst's spare cells when they suffice, else in a new array; in base 10 a non-negative i is written as its decimal text, uf_dchar(i, k) being by definition its k-th character)
 //@   requires 2 <= base && base <= 36
 //@   assigns spare(dst)
 //@   allocates
 //@   ensures len(ret) >= len(dst) + 1 && extends(ret, dst)
+//@   ensures [keep] same(ret, 0, old(dst), 0, len(dst))
+//@   ensures [text] base == 10 && i >= 0 ==> len(ret) == len(dst) + nd10(i) && dseg(ret, len(dst), i, 0, nd10(i))
 //@ func math/big.(*Int).Append
-//@   trusted math/big's formatter (panics for a base outside 2..62; appends at least one digit - in buf's spare cells when they suffice, else in a new array)
+//@   trusted math/big's formatter (panics for a base outside 2..62; appends at least one digit - in buf's spare cells when they suffice, else in a new array; in base 10: a minus sign for a negative value, then the decimal text of the magnitude)
 //@   requires 2 <= base && base <= 62
 //@   assigns spare(buf)
 //@   allocates
 //@   ensures len(ret) >= len(buf) + 1 && extends(ret, buf)
+//@   ensures [keep] same(ret, 0, old(buf), 0, len(buf))
+//@   ensures [text] base == 10 && val(x) >= 0 ==> len(ret) == len(buf) + nd10(val(x)) && dseg(ret, len(buf), val(x), 0, nd10(val(x)))
+//@   ensures [negtext] base == 10 && val(x) < 0 ==> len(ret) == len(buf) + 1 + nd10(-val(x)) && ret[len(buf)] == 45 && dseg(ret, len(buf) + 1, -val(x), 0, nd10(-val(x)))
 //@ func (*BigInt).Append
 //@   layer bigint
-//@   props C16 C04 C06 C18
+//@   props C16 C04 C06 C18 C14
 //@   nilable z
 //@   requires (z != nil ==> rep(z)) && 2 <= base && base <= 62
 //@   assigns spare(buf)
 //@   allocates
 //@   ensures [grows] z != nil ==> len(ret) >= len(buf) + 1
 //@   ensures [extends] extends(ret, buf)
+//@   ensures [keep] same(ret, 0, old(buf), 0, len(buf))
+//@   ensures [text] z != nil && base == 10 && val(z) >= 0 ==> len(ret) == len(buf) + nd10(val(z)) && dseg(ret, len(buf), val(z), 0, nd10(val(z)))
+//@   ensures [negtext] z != nil && base == 10 && val(z) < 0 ==> len(ret) == len(buf) + 1 + nd10(-val(z)) && ret[len(buf)] == 45 && dseg(ret, len(buf) + 1, -val(z), 0, nd10(-val(z)))
+// The text of a finite decimal with coefficient C >= 0 and exponent E, from position p of s to its end, over the decimal
+// text of C (uf_dchar(C, k) is its k-th character, nd10(C) its length). PlainText: no exponent part (digits then E zeros;
+// or "0." and leading zeros; or a point inside the digits). SciText: one digit, a point and the remaining digits if any, then
+// the exponent part with the adjusted exponent. plainG is the choice the General Decimal Arithmetic specification prescribes
+// for to-scientific-string (exponent <= 0 and adjusted exponent >= -6), plus the documented exception for zeros with an
+// exponent in [-2000, -1] - written from the property statement (C14), not from the code.
+//@ define PlainText(s: []byte, p: int, C: int, E: int): bool = ite(E >= 0, len(s) == p + nd10(C) + E && dseg(s, p, C, 0, nd10(C)) && filled(s, p + nd10(C), E, 48), ite(-E >= nd10(C), len(s) == p + 2 - E && s[p] == 48 && s[p + 1] == 46 && filled(s, p + 2, -E - nd10(C), 48) && dseg(s, p + 2 - E - nd10(C), C, 0, nd10(C)), len(s) == p + nd10(C) + 1 && dseg(s, p, C, 0, nd10(C) + E) && s[p + nd10(C) + E] == 46 && dseg(s, p + nd10(C) + E + 1, C, nd10(C) + E, -E)))
+//@ define SciText(s: []byte, p: int, C: int, E: int, ech: int): bool = s[p] == uf_dchar(C, 0) && ite(nd10(C) == 1, Etail(s, p + 1, ech, E + nd10(C) - 1), s[p + 1] == 46 && dseg(s, p + 2, C, 1, nd10(C) - 1) && Etail(s, p + nd10(C) + 1, ech, E + nd10(C) - 1))
+//@ define plainG(C: int, E: int): bool = (E <= 0 && E + nd10(C) - 1 >= -6) || (C == 0 && -2000 <= E && E <= -1)
+//@ define knownverb(f: int): bool = f == 101 || f == 69 || f == 102 || f == 103 || f == 71
 //@ func (*Decimal).Append
-//@   props C04 C06 C18
+//@   props C04 C06 C18 C14
 //@   exported
 //@   requires d != nil
 //@   assigns spare(buf)
 //@   allocates
 //@   ensures [extends] extends(ret, buf)
+//@   ensures [keep] same(ret, 0, old(buf), 0, len(buf))
+//@   ensures [sign] d.Negative && (d.Form != Finite || knownverb(fmtString)) ==> ret[len(buf)] == 45
+//@   ensures [nan] d.Form == NaN ==> len(ret) == len(buf) + ite(d.Negative, 1, 0) + 3 && ret[len(ret) - 3] == 78 && ret[len(ret) - 2] == 97 && ret[len(ret) - 1] == 78
+//@   ensures [snan] d.Form == NaNSignaling ==> len(ret) == len(buf) + ite(d.Negative, 1, 0) + 4 && ret[len(ret) - 4] == 115 && ret[len(ret) - 3] == 78 && ret[len(ret) - 2] == 97 && ret[len(ret) - 1] == 78
+//@   ensures [inf] d.Form == Infinite ==> len(ret) == len(buf) + ite(d.Negative, 1, 0) + 8 && ret[len(ret) - 8] == 73 && ret[len(ret) - 7] == 110 && ret[len(ret) - 6] == 102 && ret[len(ret) - 5] == 105 && ret[len(ret) - 4] == 110 && ret[len(ret) - 3] == 105 && ret[len(ret) - 2] == 116 && ret[len(ret) - 1] == 121
+//@   ensures [G] d.Form == Finite && val(d.Coeff) >= 0 && (fmtString == 71 || fmtString == 103) ==> ite(plainG(val(d.Coeff), d.Exponent), PlainText(ret, len(buf) + ite(d.Negative, 1, 0), val(d.Coeff), d.Exponent), SciText(ret, len(buf) + ite(d.Negative, 1, 0), val(d.Coeff), d.Exponent, fmtString - 2))
+//@   ensures [E] d.Form == Finite && val(d.Coeff) >= 0 && (fmtString == 69 || fmtString == 101) ==> SciText(ret, len(buf) + ite(d.Negative, 1, 0), val(d.Coeff), d.Exponent, fmtString)
+//@   ensures [f] d.Form == Finite && val(d.Coeff) >= 0 && fmtString == 102 ==> PlainText(ret, len(buf) + ite(d.Negative, 1, 0), val(d.Coeff), d.Exponent)
+//@   ensures [verb] d.Form == Finite && !knownverb(fmtString) ==> len(ret) == len(buf) + 2 && ret[len(buf)] == 37 && ret[len(buf) + 1] == fmtString
 //@ func (*Decimal).Scan
 //@   props C04 C06
 //@   exported
@@ -2223,19 +2254,28 @@ package apd
 //@   exported
 //@   requires inv(d)
 //@ func fmtE
-//@   props C04 C06 C18
-//@   requires d != nil && len(digits) >= 1
+//@   props C04 C06 C18 C14
+//@   requires d != nil && len(digits) >= 1 && apart(digits, buf)
 //@   assigns spare(buf)
 //@   allocates
 //@   ensures [extends] extends(ret, buf)
+//@   ensures [keep] same(ret, 0, old(buf), 0, len(buf))
+//@   ensures [first] ret[len(buf)] == old(digits[0])
+//@   ensures [one] len(digits) == 1 ==> Etail(ret, len(buf) + 1, fmt, d.Exponent + len(digits) - 1)
+//@   ensures [more] len(digits) > 1 ==> ret[len(buf) + 1] == 46 && same(ret, len(buf) + 2, old(digits), 1, len(digits) - 1) && Etail(ret, len(buf) + len(digits) + 1, fmt, d.Exponent + len(digits) - 1)
+//@ define apart(digits: []byte, buf: []byte): bool = base(digits) + len(digits) <= base(buf) + len(buf) || base(buf) + cap(buf) <= base(digits)
 //@ func fmtF
-//@   props C04 C06 C18
-//@   requires d != nil && len(digits) >= 1
+//@   props C04 C06 C18 C14
+//@   requires d != nil && len(digits) >= 1 && apart(digits, buf)
 //@   assigns spare(buf)
 //@   allocates
-//@   loop 1 invariant extends(buf, old(buf))
-//@   loop 2 invariant extends(buf, old(buf))
+//@   loop 1 invariant extends(buf, old(buf)) && 0 <= i && i <= left && len(buf) == old(len(buf)) + 2 + i && same(buf, 0, old(buf), 0, old(len(buf))) && buf[old(len(buf))] == 48 && buf[old(len(buf)) + 1] == 46 && filled(buf, old(len(buf)) + 2, i, 48)
+//@   loop 2 invariant extends(buf, old(buf)) && 0 <= i && i <= d.Exponent && len(buf) == old(len(buf)) + len(digits) + i && same(buf, 0, old(buf), 0, old(len(buf))) && same(buf, old(len(buf)), old(digits), 0, len(digits)) && filled(buf, old(len(buf)) + len(digits), i, 48)
 //@   ensures [extends] extends(ret, buf)
+//@   ensures [keep] same(ret, 0, old(buf), 0, len(buf))
+//@   ensures [int] d.Exponent >= 0 ==> len(ret) == len(buf) + len(digits) + d.Exponent && same(ret, len(buf), old(digits), 0, len(digits)) && filled(ret, len(buf) + len(digits), d.Exponent, 48)
+//@   ensures [small] d.Exponent < 0 && -d.Exponent >= len(digits) ==> len(ret) == len(buf) + 2 - d.Exponent && ret[len(buf)] == 48 && ret[len(buf) + 1] == 46 && filled(ret, len(buf) + 2, -d.Exponent - len(digits), 48) && same(ret, len(buf) + 2 - d.Exponent - len(digits), old(digits), 0, len(digits))
+//@   ensures [point] d.Exponent < 0 && -d.Exponent < len(digits) ==> len(ret) == len(buf) + len(digits) + 1 && same(ret, len(buf), old(digits), 0, len(digits) + d.Exponent) && ret[len(buf) + len(digits) + d.Exponent] == 46 && same(ret, len(buf) + len(digits) + d.Exponent + 1, old(digits), len(digits) + d.Exponent, -d.Exponent)
 //@ func (*Decimal).Text
 //@   props C04 C06 C18
 //@   exported
